@@ -41,50 +41,14 @@ theorem handlers_serial (cap : Nat) (s : St) (h : Reachable cap s) :
   obtain ⟨ls, hr⟩ := h
   obtain ⟨h1, h2, h3⟩ := minv_run cap ls _ _ minv_init hr
   refine ⟨h1, h2, ?_⟩
-  simp [Serial, h2, h3]
-
-theorem foreign_false_all (tr : List Ev) : ∀ (m : Mon), (tr.foldl Mon.step m).foreign = false →
-    m.foreign = false ∧ ∀ w it, (Ev.start w it ∈ tr ∨ Ev.stop w it ∈ tr) → w = Thread.consumer := by
-  induction tr with
-  | nil => intro m h; exact ⟨h, by simp⟩
-  | cons e tr ih =>
-    intro m h
-    simp only [List.foldl_cons] at h
-    obtain ⟨hm, hall⟩ := ih _ h
-    cases e with
-    | enq w c it =>
-      simp only [Mon.step] at hm
-      refine ⟨hm, ?_⟩
-      intro w' it' hmem
-      apply hall w' it'
-      rcases hmem with hmem | hmem <;> simp at hmem
-      · left; exact hmem
-      · right; exact hmem
-    | start w it =>
-      simp only [Mon.step, Bool.or_eq_false_iff, bne_eq_false_iff_eq] at hm
-      refine ⟨hm.1, ?_⟩
-      intro w' it' hmem
-      rcases hmem with hmem | hmem <;> simp at hmem
-      · rcases hmem with ⟨rfl, _⟩ | hmem
-        · exact hm.2
-        · exact hall w' it' (Or.inl hmem)
-      · exact hall w' it' (Or.inr hmem)
-    | stop w it =>
-      simp only [Mon.step, Bool.or_eq_false_iff, bne_eq_false_iff_eq] at hm
-      refine ⟨hm.1, ?_⟩
-      intro w' it' hmem
-      rcases hmem with hmem | hmem <;> simp at hmem
-      · exact hall w' it' (Or.inl hmem)
-      · rcases hmem with ⟨rfl, _⟩ | hmem
-        · exact hm.2
-        · exact hall w' it' (Or.inr hmem)
+  simp [Serial, Mon.ok, h2, h3]
 
 /-- **only on the service's goroutine**: every handler-execution event of every reachable
 trace is labelled with the consumer. -/
 theorem handlers_only_on_consumer (cap : Nat) (s : St) (h : Reachable cap s) (w : Thread) (it : Nat)
     (hev : Ev.start w it ∈ s.trace ∨ Ev.stop w it ∈ s.trace) : w = Thread.consumer := by
   obtain ⟨_, _, h3⟩ := handlers_serial cap s h
-  simp only [Serial, Bool.and_eq_true, Bool.not_eq_true', decide_eq_true_eq] at h3
+  simp only [Serial, Mon.ok, Bool.and_eq_true, Bool.not_eq_true', decide_eq_true_eq] at h3
   exact (foreign_false_all s.trace _ h3.2).2 w it hev
 
 /-- **entry only through a queue** (in the model): whatever is running, queued or was ever
@@ -107,30 +71,6 @@ theorem direct_call_breaks_serial :
   ⟨[.enq 1 0 7, .pick 0, .direct 2 8], _, rfl, by decide, by decide⟩
 
 /-! ## the generated dispatch graph -/
-
-/-- generic lifting of the Boolean check to paths -/
-theorem entry_of_check (G : CallGraph) (h : entryCheck G = true) (r s : Nat)
-    (hr : r ∈ forbiddenRoots G) (hs : s ∈ svcNodes G) : ¬ Reach (directEdges G) r s := by
-  intro hreach
-  simp only [entryCheck, entryCheckWith, Bool.and_eq_true] at h
-  obtain ⟨⟨⟨hc, hsv⟩, hspawn⟩, hexp⟩ := h
-  have hsD : s ∈ danger G := by
-    have := (List.all_eq_true.mp hsv) s hs
-    simpa using this
-  have hrD : r ∈ danger G := closedBack_sound hc hreach hsD
-  rcases List.mem_append.mp hr with hr | hr
-  · have := (List.all_eq_true.mp hspawn) r hr
-    simp at this
-    exact this hrD
-  · have hx := List.mem_filter.mp hr
-    have := (List.all_eq_true.mp hexp) r hrD
-    simp only [Bool.or_eq_true, Bool.not_eq_true', List.contains_eq_mem, decide_eq_false_iff_not,
-      decide_eq_true_eq] at this
-    rcases this with h' | h'
-    · exact h' hx.1
-    · have h2 := hx.2
-      simp only [Bool.not_eq_true', List.contains_eq_mem, decide_eq_false_iff_not] at h2
-      exact h2 h'
 
 /-- all four Boolean obligations over the graph regenerated from the current Go source,
 evaluated once by the kernel (the quantifier is the finite graph) -/
@@ -163,18 +103,14 @@ theorem invocations_on_loop (n : Nat) (hn : n ∈ loopSites graph) :
     ∃ r, r ∈ consumerRoots graph ∧ Reach (directEdges graph) r n := by
   have h := graph_checks
   simp only [allChecks, wiringCheck, Bool.and_eq_true] at h
-  have := (List.all_eq_true.mp h.1.2.1.1) n hn
-  simp only [List.contains_eq_mem, decide_eq_true_eq] at this
-  exact fwd_sound' _ _ n this
+  exact fwd_sound' _ _ n ((List.all_eq_true.mp h.1.2.1.1) n hn)
 
 /-- every closure handed to `Sche.Post` (session add / remove / client message) is run from a consumer loop -/
 theorem posted_closures_on_loop (n : Nat) (hn : n ∈ postedLits graph) :
     ∃ r, r ∈ consumerRoots graph ∧ Reach (directEdges graph) r n := by
   have h := graph_checks
   simp only [allChecks, wiringCheck, Bool.and_eq_true] at h
-  have := (List.all_eq_true.mp h.1.2.2) n hn
-  simp only [List.contains_eq_mem, decide_eq_true_eq] at this
-  exact fwd_sound' _ _ n this
+  exact fwd_sound' _ _ n ((List.all_eq_true.mp h.1.2.2) n hn)
 
 /-- the timer goroutine hands the expired timer to a queue -/
 theorem timer_roots_enqueue (t : Nat) (ht : t ∈ graph.timerRoots) :
@@ -183,10 +119,9 @@ theorem timer_roots_enqueue (t : Nat) (ht : t ∈ graph.timerRoots) :
   simp only [allChecks, Bool.and_eq_true] at h
   have := (List.all_eq_true.mp h.2) t ht
   obtain ⟨n, hn, hs⟩ := List.any_eq_true.mp this
-  simp only [List.contains_eq_mem, decide_eq_true_eq] at hs
-  obtain ⟨r, hr, hreach⟩ := fwd_sound' _ _ n hn
+  obtain ⟨r, hr, hreach⟩ := fwd_sound' _ _ n hs
   simp at hr; subst hr
-  exact ⟨n, hs, hreach⟩
+  exact ⟨n, hn, hreach⟩
 
 /-- non-vacuity of the graph theorems: there are spawned goroutines, service sites, consumer
 loops, timer goroutines, invocation points and posted closures in the generated graph -/
